@@ -205,14 +205,12 @@ Proof.
   - exact (session_send_I _ _ _ _ _ HI (build_app_header a) H).
   - exact (do_logout_I _ _ _ _ HI H).
   - match type of H with do_logout cfg ?sx = _ =>
-      assert (HI1 : Inv sx tr) by (eapply Inv_keeps; [exact HI|apply keeps_same; try reflexivity; auto]) end.
+      assert (HI1 : Inv sx tr) by (eapply Inv_keeps; [exact HI|apply keeps_ev_add]) end.
     exact (do_logout_I _ _ _ _ HI1 H).
   - inversion H; subst. eapply Istep_nil; [exact HI|]. apply keeps_same; try reflexivity; auto.
   - inversion H; subst. eapply Istep_nil; [exact HI|]. apply keeps_same; try reflexivity; auto.
-  - inversion H; subst. eapply Istep_nil; [exact HI|].
-    repeat split; try reflexivity; [|auto]. intro k. cbn [s_out upd_pools].
-    apply pool_add_keeps_out. exact Hop.
-  - inversion H; subst. eapply Istep_nil; [exact HI|]. apply keeps_same; try reflexivity; auto.
+  - inversion H; subst. eapply Istep_nil; [exact HI|]. apply keeps_reg_out. exact Hop.
+  - inversion H; subst. eapply Istep_nil; [exact HI|]. apply keeps_ev_add.
   - destruct (negb (timer_live s g) || s_intimer_done s); [inversion H; subst; eapply Istep_nil; [exact HI|apply keeps_refl]|].
     destruct (negb (logged_or_probing s)); [inversion H; subst; eapply Istep_nil; [exact HI|apply keeps_refl]|].
     destruct (lstate_eqb (s_state s) WaitingTestReqAnswer).
@@ -250,7 +248,7 @@ Proof.
   set (s0 := upd_state s WaitingLogon) in *.
   set (s1 := upd_pools s0 (s_in s0) (s_out s0) (ev_add (s_ev s0) EvDisconnect EDisconnectCancel)) in *.
   assert (HI1 : Inv s1 tr).
-  { eapply Inv_keeps; [exact HI|]. apply keeps_same; try reflexivity; auto. }
+  { eapply Inv_keeps; [exact HI|]. eapply keeps_trans; [apply (keeps_upd_state s WaitingLogon)|apply keeps_ev_add]. }
   destruct (c_side cfg).
   - inversion H; subst. eapply Istep_nil; [exact HI1|]. apply keeps_same; try reflexivity; auto.
   - match type of H with context [session_send cfg ?sa ?m] =>
@@ -258,7 +256,7 @@ Proof.
       assert (HIa : Inv sa tr) by (eapply Inv_keeps; [exact HI1|apply keeps_upd_state]) end.
     inversion H; subst.
     eapply Istep_post; [exact (session_send_I _ _ _ _ _ HIa (mk_msg_header _ _) E)|].
-    apply keeps_same; try reflexivity; auto.
+    eapply keeps_trans; [apply keeps_ev_add|]. apply keeps_same; try reflexivity; auto.
 Qed.
 
 (* a session run from construction: Run, then any history *)
